@@ -105,6 +105,7 @@ def c04_ops(alpha, cfg, tier):
         ("get", sel_a, None),
         ("contains", ("cmp", "measurement", (), "==", "m"), None),
         ("reopen",),
+        ("reopen", "with"),                                       # closed by leaving a `with` block
     ]
     if cfg.get("csv", {}).get("access_mode") == "w+":
         ops = [o for o in ops if o[0] != "reopen"]  # opening with w+ truncates by definition
